@@ -126,8 +126,8 @@ def run_histories(ctx, hists, jobs=8):
             cur["uid"].append(int(f[1]))
         elif tag == "K":
             cur["K"][int(f[1])] = (int(f[2]), f[3])
-        elif tag in ("S", "R", "C", "M", "T", "P", "W", "G"):
-            st = cur["steps"].setdefault(int(f[1]), dict(op=None, R=None, C=[], M=None, T={}, P={}, W={}, G=None))
+        elif tag in ("S", "R", "C", "M", "T", "P", "W", "G", "B"):
+            st = cur["steps"].setdefault(int(f[1]), dict(op=None, R=None, C=[], M=None, T={}, P={}, W={}, G=None, B={}))
             if tag == "S":
                 st["op"] = f[2:]
             elif tag == "R":
@@ -138,6 +138,8 @@ def run_histories(ctx, hists, jobs=8):
                 st["M"] = (int(f[2]), int(f[3]))
             elif tag == "T":
                 st["T"][int(f[2])] = (int(f[3]), int(f[4]), int(f[5]))     # seccomp filters nnp
+            elif tag == "B":
+                st["B"][int(f[2])] = (int(f[3]), int(f[4]), int(f[5]))
             elif tag == "P":
                 st["P"][int(f[2])] = parse_set(f[3])
             elif tag == "W":
@@ -173,7 +175,7 @@ Definition ksupported := supported_sem kstate do_seccomp do_prctl seccomp_funs g
 Definition ot (t m c:N) (n:bool) (a:option (list N)) : obs_thread := {| o_tid := t; o_mode := m; o_count := c; o_nnp := n; o_active := a |}.
 Definition sf (c jt jf k:N) : sock_filter := {| sf_code := c; sf_jt := jt; sf_jf := jf; sf_k := k |}.
 Definition fl (nnp:bool) (flag:N) (p:res (list instr)) : filt := {| f_nnp := nnp; f_flag := flag; f_prog := p |}.
-Definition st (o:rop) (l:list obs_thread) : rstep := {| r_op := o; r_threads := l |}.
+Definition st (o:rop) (b l:list obs_thread) : rstep := {| r_op := o; r_pre := b; r_threads := l |}.
 """
 
 
@@ -209,6 +211,7 @@ def coq_history(h):
     first_tid = min(steps[-1]["T"])
     defs = []
     rows = []
+    prev = -1
     for i in sorted(k for k in steps if k >= 0):
         stp = steps[i]
         op = stp["op"] or ["nop"]
@@ -235,7 +238,21 @@ def coq_history(h):
         elif op[0] == "drop":
             rop = "RDrop"
         P = dict(stp["P"])
-        rows.append("st (%s) %s" % (rop, coq_threads(stp["T"], P)))
+        # tasks the operation ran on that did not exist at the previous step (the Go runtime started them in
+        # between): known to the model before the operation, in the state they had then
+        pre = dict(stp["B"])
+        prevT = steps[prev]["T"] if prev is not None else {}
+        for c in stp["C"]:
+            t = c[0]
+            if t not in prevT and t not in pre and t in stp["T"]:
+                s_, f_, n_ = stp["T"][t]
+                if op[0] == "load" and stp["R"] is not None and stp["R"][0] == "nil":
+                    f_ -= 1
+                    s_ = 2 if f_ > 0 else 0
+                pre[t] = (s_, f_, n_)
+        pre = {t: v for t, v in pre.items() if t not in prevT}
+        rows.append("st (%s) %s %s" % (rop, coq_threads(pre, {}), coq_threads(stp["T"], P)))
+        prev = i
     text = "\n".join(defs) + "\nDefinition res_%s := Eval vm_compute in replay kload ksupported %s %s [\n %s\n].\nPrint res_%s.\n" % (
         h["id"], priv, init, ";\n ".join(rows), h["id"])
     return text
@@ -605,6 +622,18 @@ def run_check(ctx, prop, prop_file, theorems, hist_texts, replay, rule, jobs=8):
     for hid, h in obs.items():
         nops += len([k for k in h["steps"] if k >= 0])
         if not h["ended"] or h["X"] or h["exit"] != "0":
+            started = [h["steps"][k] for k in sorted(h["steps"]) if k >= 0 and h["steps"][k]["op"]]
+            last = started[-1] if started else None
+            if prop == "C09" and last is not None and last["op"][0] == "supp" and last["R"] is None and not h["X"]:
+                # the process did not survive the probe (e.g. it entered strict mode): probing changed process state
+                nbad += 1
+                bad_hist.add(hid)
+                if reported < 3:
+                    p = ctx.violation("counterexample", dict(history=h["text"], what="the process did not survive a call of Supported(): probing for support changed process state",
+                                                             operation=" ".join(last["op"]), expected="Supported() returns and no task changes", actual="child process ended with %s" % h["exit"]), True)
+                    rewrite_with_replay_cmd(ctx, p)
+                    reported += 1
+                continue
             unusable.append(dict(history=h["text"], exit=h["exit"], messages=h["X"][:3]))
             continue
         for b in DIRECT[prop](h):
